@@ -35,6 +35,7 @@ package handler
 //@   ensures[C05] fsw == old(fsw) @no-write
 //@   ensures[C13] noLeak(ctx) @no-leak
 //@   ensures[C06] ok ==> ctx.State.CwdHandle != nil && pisdir(fpath[ctx.State.CwdHandle]) && fpath[ctx.State.CwdHandle] == path @dir-opened
+//@   ensures[C06] ok ==> fresh(ctx.State.CwdHandle) @listing-restarts-with-a-newly-opened-handle
 //@   ensures[C06] iofaults == old(iofaults) && pexists(path) ==> ok == pisdir(path) @truthful
 
 //@ func Handler.HandleCloseFile
